@@ -57,7 +57,9 @@ NOT_OBSERVED = {"__repr__", "__hash__", "__eq__", "__ne__", "__lt__", "__le__", 
                 "__match_args__", "__dataclass_fields__", "__dataclass_params__", "__abstractmethods__",
                 "__sizeof__", "__dir__", "__class_getitem__", "__copy__", "__deepcopy__", "__reduce__",
                 "__reduce_ex__", "__getstate__", "__setstate__", "__getnewargs__", "__getnewargs_ex__",
-                "__subclasshook__", "__type_params__", "__protocol_attrs__", "__non_callable_proto_members__"}
+                "__subclasshook__", "__type_params__", "__protocol_attrs__", "__non_callable_proto_members__",
+                # `copyreg` caches this on a class the first time an instance is copied or pickled (the harness does)
+                "__slotnames__"}
 
 
 def lstr(s):
